@@ -550,15 +550,21 @@ impl GrpcClient {
             return Err(Error::AbciQuery(response.code, response.log));
         }
 
-        // If account doesn't exist yet, just return 0
-        if response.value.is_empty() {
-            return Ok(Coin::utia(0));
-        }
-
         // NOTE: don't put `ProofChain` directly in the AbciQueryResponse, because
         // it supports only small subset of proofs that are required for the balance
         // queries
         let proof: ProofChain = response.proof_ops.unwrap_or_default().try_into()?;
+
+        // If account doesn't exist yet, its absence must be proven too
+        if response.value.is_empty() {
+            proof.verify_non_membership(
+                &header.header.app_hash,
+                [prefixed_account_key.as_slice(), b"bank"],
+            )?;
+
+            return Ok(Coin::utia(0));
+        }
+
         proof.verify_membership(
             &header.header.app_hash,
             [prefixed_account_key.as_slice(), b"bank"],
